@@ -379,6 +379,14 @@ def w_dups(job):
     return fails, counts, stats
 
 
+
+def rejob(x):
+    """Re-execute one worker job (used by ./check --rejob for history-dependent failures)."""
+    def tup(v):
+        return tuple(tup(y) for y in v) if isinstance(v, list) else v
+    return globals()[x[0]](tup(x[1]))
+
+
 def _dispatch(job):
     fn, arg = job
     return fn(arg)
@@ -398,7 +406,10 @@ def run(tier, seed):
     res = pool.pmap(_dispatch, jobs)
     failures, counts = [], {}
     stats = {}
-    for fl, c, st in res:
+    for (fn, arg), (fl, c, st) in zip(jobs, res):
+        for _f in fl:
+            if isinstance(_f, dict) and "key" in _f:
+                _f.setdefault("job", {"fn": "nslmc.props.c16:rejob", "arg": [fn.__name__, arg]})
         failures += fl
         for k, v in c.items():
             counts[k] = counts.get(k, 0) + v
